@@ -4,6 +4,7 @@ C10 — streaming calls always progress, and a completed flush is decodable.
 -/
 import ZstdVerif.Model.Stream
 import ZstdVerif.Lemmas.DStreamRT
+import ZstdVerif.Lemmas.CStreamRT
 namespace ZstdVerif.Props.C10
 open ZstdVerif.Stream
 
@@ -89,5 +90,49 @@ open DStream in
 theorem dstream_calls_bounded (all : List FrameD) (hok : AllOk all) (io : List (Nat × Nat)) (s : State) (hinv : Inv all s)
     (hf : Feasible all s io) (hoff : Offered io) : io.length ≤ slack all s :=
   DStream.calls_bounded all hok io s hinv hf hoff
+
+
+/-! ### (a), (b) compression side: model of ZSTD_compressStream2 (Model/CStream.lean, tied call by call to the real code) -/
+
+open CStream in
+/-- **cstream_progress**: a call with output room makes progress - consumes or produces at least one byte - whenever there is something to do
+(input offered, output pending, a frame to end, or buffered input to flush); chunk outputs are non-empty (`co i > 0`: every block costs its header) -/
+theorem cstream_progress (co : Nat → Nat) (s : State) (inSize outSize : Nat) (endOp : EndOp) (h : Inv s) (hco : ∀ i, 0 < co i)
+    (hout : 0 < outSize)
+    (hw : 0 < inSize ∨ s.streamStage = .flush ∨ endOp = .eEnd ∨
+          (endOp = .eFlush ∧ s.streamStage = .load ∧ s.inToCompress < s.inBuffPos)) :
+    0 < (step co s inSize outSize endOp).2.consumed + (step co s inSize outSize endOp).2.produced :=
+  CStream.progress co s inSize outSize endOp h hco hout hw
+
+open CStream in
+/-- **cstream_flush_complete**: when a flush / end call returns 0, nothing is left inside the context: the input buffer is fully compressed, the
+output buffer fully handed over, everything the chunk compressor wrote has been emitted and everything consumed has been compressed -/
+theorem cstream_flush_complete (co : Nat → Nat) (s : State) (inSize outSize : Nat) (endOp : EndOp) (h : Inv s)
+    (hd : endOp ≠ .eContinue) (hz : (step co s inSize outSize endOp).2.ret = .val 0) :
+    let r := step co s inSize outSize endOp
+    r.1.inBuffPos = r.1.inToCompress ∧ r.1.outBuffContentSize = 0 ∧ r.1.outBuffFlushedSize = 0 ∧
+    r.1.totalOut = r.1.outDone ∧ r.1.srcDone = r.1.totalIn ∧
+    (r.2.consumed = inSize ∨ (s.streamStage = .flush ∧ s.frameEnded = true)) :=
+  CStream.flush_complete co s inSize outSize endOp h hd hz
+
+open CStream in
+/-- **cstream_flush_point**: after ANY history, a flush / end call that returns 0 leaves the emitted stream equal to the concatenation of the
+chunk outputs for exactly the input consumed so far: the bytes a caller holds at a completed flush cover all the input it supplied -/
+theorem cstream_flush_point (co : Nat → Nat) (w m : Nat) (p : Option Nat) (cs : List (Nat × Nat × EndOp)) (i o : Nat) (d : EndOp)
+    (hd : d ≠ .eContinue) (hz : (step co (run co (State.start w m p) cs).1 i o d).2.ret = .val 0) :
+    let r := run co (State.start w m p) cs
+    let c := step co r.1 i o d
+    emittedAll (r.2 ++ [c.2]) = chunkOutAll (r.2 ++ [c.2]) ∧ chunkSrcAll (r.2 ++ [c.2]) = List.range' 0 c.1.totalIn :=
+  CStream.flush_point co w m p cs i o d hd hz
+
+open CStream in
+/-- the return value is truthful: 0 iff everything written by the chunk compressor has been handed to the caller; for `e_end`, 0 iff the frame
+(epilogue included) is complete and the context is back in its initial stage -/
+theorem cstream_return_value (co : Nat → Nat) (s : State) (inSize outSize : Nat) (endOp : EndOp) (h : Inv s) :
+    ((step co s inSize outSize endOp).2.ret = .val 0 ↔
+      (step co s inSize outSize endOp).1.totalOut = (step co s inSize outSize endOp).1.outDone) ∧
+    ((step co s inSize outSize .eEnd).2.ret = .val 0 ↔
+      ((step co s inSize outSize .eEnd).1.streamStage = .init ∧ (step co s inSize outSize .eEnd).1.frameEnded = true)) :=
+  ⟨CStream.ret_zero_iff_all_emitted co s inSize outSize endOp h, CStream.end_zero_iff_frame_complete co s inSize outSize h⟩
 
 end ZstdVerif.Props.C10
